@@ -27,6 +27,7 @@ type c02Sharer struct {
 // BOUND: G in {1,2,3}; device memory T = 1000 MiB (quick) / {1000, 100, 16000} (thorough); 0..2 existing sharers over <= 2 groups with SYMBOLIC memory requests in [1, 2^20); one whole-GPU pod; the new request's memory from the boundary menu {1, 0.3T, T/2, T/2+1, T, T+1, 2T} with 1..2 devices; GPU order: none, or (for 2-device requests and with a nominated whole-GPU pod) whole GPUs first; the new pod's cpu request regular (100m) or below the best-effort threshold (0)
 // ASSUME: pre-state reachable: per group the occupying sharers fit the device, groups + whole GPUs <= G; the existing sharers' derived fractional portions (dead for this property: only the queue charge uses them) are havoc'ed
 func VerifC02_SharedGpuMemory() {
+	c02Lite = false
 	c02SharedGpuMemory("C02", false)
 }
 
@@ -37,17 +38,23 @@ func VerifC02_SharedGpuMemory() {
 // BOUND: G in {2,3}; sharers: g0 running + g0 terminating + g1 running with symbolic memory; device memory 1000 MiB; new request for 2 devices from the boundary menu
 // ASSUME: as VerifC02_SharedGpuMemory
 func VerifC02_MultiDeviceWithTerminatingSharer() {
+	c02Lite = false
 	c02SharedGpuMemory("C02", true)
 }
 
 // VerifC01_SharedGpuDevices: the same placement seen from the node: devices opened for sharing plus
 // whole GPUs in use never exceed the node's GPUs, and a request that needs a terminating sharer's
 // memory or device is only nominated (also for pods below the best-effort cpu threshold).
-// BOUND: as VerifC02_SharedGpuMemory
+// BOUND: as VerifC02_SharedGpuMemory with 0..1 existing sharers and no GPU order function
 // ASSUME: as VerifC02_SharedGpuMemory
 func VerifC01_SharedGpuDevices() {
+	c02Lite = true
 	c02SharedGpuMemory("C01", false)
 }
+
+// c02Lite (set by the C01 variant): at most one existing sharer, no GPU order function - the full
+// space is C02's own harness.
+var c02Lite bool
 
 func c02SharedGpuMemory(prop string, mixed bool) {
 	vr.OpaqueNonlinear(true)
@@ -89,6 +96,9 @@ func c02SharedGpuMemory(prop string, mixed bool) {
 	nEx := 3
 	if !mixed {
 		nEx = vr.Choose("sharers", 3)
+		if c02Lite {
+			nEx = vr.Choose("sharers", 2)
+		}
 	}
 	for i := 0; i < nEx; i++ {
 		name := vs.Name("s", i)
@@ -186,7 +196,7 @@ func c02SharedGpuMemory(prop string, mixed bool) {
 	ssn := &framework.Session{ClusterInfo: &api.ClusterInfo{Nodes: map[string]*node_info.NodeInfo{"n1": node}, PodGroupInfos: jobs}, Cache: ch}
 	// GPU order: none registered, or a whole-GPU-first order (what gpuspread yields for a node with
 	// used shared groups) - the scoring arithmetic of the order plugins itself is not executed
-	if (devices == 2 || wholeNominated) && vr.Choose("gpuOrder", 2) == 1 {
+	if !c02Lite && (devices == 2 || wholeNominated) && vr.Choose("gpuOrder", 2) == 1 {
 		ssn.AddGPUOrderFn(func(_ *pod_info.PodInfo, _ *node_info.NodeInfo, gpuIdx string) (float64, error) {
 			if gpuIdx == pod_info.WholeGpuIndicator {
 				return 1, nil
